@@ -616,3 +616,193 @@ Proof. intros. rewrite !pipe_map, !init_map, !map_app. reflexivity. Qed.
 Theorem pipeline_pointwise : forall fs (c : list pixel),
   pipe fs (init c) = map (fun p => pipe1 fs (init1 p)) c.
 Proof. intros. now rewrite pipe_map, init_map, map_map. Qed.
+
+(** * 5. One sweep: zero stays zero, positive stays positive, flatness bound (C10) *)
+Lemma qz_true : forall x, qz x = true <-> x == 0.
+Proof. intros. unfold qz. apply Qeq_bool_iff. Qed.
+
+Lemma qz_false : forall x, qz x = false <-> ~ x == 0.
+Proof. intros. rewrite <- qz_true. destruct (qz x); split; congruence. Qed.
+
+Lemma Qltb_true : forall x y, Qltb x y = true <-> x < y.
+Proof.
+  intros. unfold Qltb. rewrite negb_true_iff. rewrite <- not_true_iff_false, Qle_bool_iff. split; intros H.
+  - now apply Qnot_le_lt.
+  - now apply Qlt_not_le.
+Qed.
+
+Lemma in_nzs : forall x m, In x (nzs m) <-> In x m /\ ~ x == 0.
+Proof. intros. unfold nzs. rewrite filter_In, negb_true_iff, qz_false. tauto. Qed.
+
+Lemma mean_eq : forall l, mean l == sumQ l / qlen l.
+Proof. intros. unfold mean. apply Qred_correct. Qed.
+
+Lemma variance_eq : forall l, variance l == sumQ (map (fun x => (x - mean l) * (x - mean l)) l) / qlen l.
+Proof. intros. unfold variance. rewrite mean_eq. unfold qlen, zlen. now rewrite map_length. Qed.
+
+Lemma qlen_pos : forall {B} (l : list B), l <> [] -> 0 < qlen l.
+Proof.
+  intros B l H. unfold qlen, zlen. destruct l; [congruence|].
+  replace 0 with (inject_Z 0) by reflexivity. rewrite <- Zlt_Qlt. simpl length. lia.
+Qed.
+
+Lemma sumQ_pos : forall l, l <> [] -> (forall x, In x l -> 0 < x) -> 0 < sumQ l.
+Proof.
+  induction l as [|x l IH]; intros Hne H; [congruence|]. simpl.
+  assert (0 < x) by (apply H; now left).
+  destruct l as [|y l]; [simpl; lra|].
+  assert (0 < sumQ (y :: l)) by (apply IH; [discriminate | intros; apply H; now right]). lra.
+Qed.
+
+Lemma Qdiv_pos : forall a b, 0 < a -> 0 < b -> 0 < a / b.
+Proof. intros. apply Qlt_shift_div_l; lra. Qed.
+
+Lemma Qsq_nonneg : forall z : Q, 0 <= z * z.
+Proof. intros. nra. Qed.
+
+Lemma sq_le_sum : forall c x l, In x l -> (x - c) * (x - c) <= sumQ (map (fun y => (y - c) * (y - c)) l).
+Proof.
+  induction l as [|y l IH]; intros H; [contradiction|]. simpl.
+  assert (Hs : 0 <= sumQ (map (fun y => (y - c) * (y - c)) l)).
+  { apply sumQ_nonneg. intros; cbv beta; apply Qsq_nonneg. }
+  pose proof (Qsq_nonneg (y - c)).
+  destruct H as [->|H]; [lra|]. specialize (IH H). lra.
+Qed.
+
+Lemma qnth_in : forall m i, (0 <= i < zlen m)%Z -> In (qnth m i) m.
+Proof. intros m i H. unfold qnth. apply nth_In. unfold zlen in H. lia. Qed.
+
+Lemma qnth_upd : forall mu m b i, length m = length b ->
+  qnth (map (upd mu) (combine m b)) i = upd mu (qnth m i, qnth b i).
+Proof.
+  intros mu m b i. unfold qnth. generalize (Z.to_nat i) as k.
+  revert b. induction m as [|x m IH]; intros b k Hl; destruct b as [|y b]; simpl in Hl; try discriminate.
+  - destruct k; reflexivity.
+  - destruct k; simpl; [reflexivity|]. apply IH. congruence.
+Qed.
+
+Lemma upd_eq : forall mu mi bi, ~ mu == 0 ->
+  upd mu (mi, bi) == if qz mi then bi else bi * (mu / mi).
+Proof.
+  intros mu mi bi Hmu. unfold upd. destruct (qz mi) eqn:E; [reflexivity|].
+  apply qz_false in E. rewrite Qred_correct. field. split; assumption.
+Qed.
+
+Lemma rowsum_nonneg : forall F n b i,
+  (forall i j, 0 <= F i j) -> (forall i, 0 <= qnth b i) -> 0 <= rowsum F n b i.
+Proof.
+  intros F n b i HF Hb. unfold rowsum.
+  assert (0 <= sumQ (map (fun j => F i j * qnth b j) (zrange 0 n))).
+  { apply sumQ_nonneg. intros j _. specialize (HF i j). specialize (Hb j). nra. }
+  specialize (Hb i). nra.
+Qed.
+
+Lemma sumQ_term_le : forall (L : list Z) f k, (forall j, In j L -> 0 <= f j) -> In k L -> f k <= sumQ (map f L).
+Proof.
+  induction L as [|x L IH]; intros f k H Hin; [contradiction|]. simpl.
+  assert (0 <= f x) by (apply H; now left).
+  assert (0 <= sumQ (map f L)) by (apply sumQ_nonneg; intros; apply H; now right).
+  destruct Hin as [->|Hin]; [lra|].
+  assert (f k <= sumQ (map f L)) by (apply IH; auto; intros; apply H; now right). lra.
+Qed.
+
+Lemma sumQ_le {B} : forall (L : list B) f g, (forall j, In j L -> f j <= g j) -> sumQ (map f L) <= sumQ (map g L).
+Proof.
+  induction L as [|x L IH]; intros f g H; simpl; [apply Qle_refl|].
+  assert (f x <= g x) by (apply H; now left).
+  assert (sumQ (map f L) <= sumQ (map g L)) by (apply IH; intros; apply H; now right). lra.
+Qed.
+
+Section Sweep.
+  Variable F : Z -> Z -> Q.
+  Variable n : nat.
+  Hypothesis F_sym : forall i j, F i j == F j i.
+  Hypothesis F_nonneg : forall i j, 0 <= F i j.
+
+  Definition InR (i : Z) : Prop := (0 <= i < Z.of_nat n)%Z.
+  Definition NonNeg (b : list Q) : Prop := forall i, 0 <= qnth b i.
+
+  (** marginals given as a list that agrees pointwise (==) with the row sums of diag(b) F diag(b) *)
+  Definition MargOf (m b : list Q) : Prop :=
+    length m = n /\ forall i, InR i -> qnth m i == rowsum F n b i.
+
+  Lemma marg_nonneg : forall m b i, MargOf m b -> NonNeg b -> InR i -> 0 <= qnth m i.
+  Proof. intros m b i [_ H] Hb Hi. rewrite H by assumption. now apply rowsum_nonneg. Qed.
+
+  Lemma inr_zlen : forall m b i, MargOf m b -> InR i -> (0 <= i < zlen m)%Z.
+  Proof. intros m b i [Hl _] Hi. unfold zlen, InR in *. lia. Qed.
+
+  (** every non-zero marginal is positive; the mean over the non-zero ones is positive *)
+  Lemma nz_pos : forall m b x, MargOf m b -> NonNeg b -> In x (nzs m) -> 0 < x.
+  Proof.
+    intros m b x HM Hb Hx. apply in_nzs in Hx. destruct Hx as [Hin Hnz].
+    apply In_nth with (d := 0) in Hin. destruct Hin as [k [Hk <-]].
+    assert (Hi : InR (Z.of_nat k)) by (destruct HM as [Hl _]; unfold InR; lia).
+    pose proof (marg_nonneg m b (Z.of_nat k) HM Hb Hi) as H0. unfold qnth in H0.
+    rewrite Nat2Z.id in H0. destruct (Qlt_le_dec 0 (nth k m 0)); [assumption|]. exfalso. apply Hnz. lra.
+  Qed.
+
+  Lemma mean_nz_pos : forall m b, MargOf m b -> NonNeg b -> nzs m <> [] -> 0 < mean (nzs m).
+  Proof.
+    intros m b HM Hb Hne. rewrite mean_eq. apply Qdiv_pos.
+    - apply sumQ_pos; [assumption|]. intros x Hx. eapply nz_pos; eauto.
+    - now apply qlen_pos.
+  Qed.
+
+  Lemma ic_update_some : forall m b b' var mu,
+    ic_update m b = Some (b', var, mu) ->
+    nzs m <> [] /\ mu = mean (nzs m) /\ var = variance (nzs m) /\ b' = map (upd mu) (combine m b).
+  Proof.
+    intros m b b' var mu H. unfold ic_update in H. destruct (nzs m) as [|x l] eqn:E; [discriminate|].
+    inversion H; subst. repeat split; congruence.
+  Qed.
+
+  (** C10.2a  a zero weight stays zero under a sweep *)
+  Theorem zero_stays_zero : forall m b b' var mu i,
+    ic_update m b = Some (b', var, mu) -> length m = length b ->
+    qnth b i == 0 -> qnth b' i == 0.
+  Proof.
+    intros m b b' var mu i H Hl Hz. apply ic_update_some in H. destruct H as [_ [_ [_ ->]]].
+    rewrite qnth_upd by assumption. unfold upd. destruct (qz (qnth m i)); [assumption|].
+    rewrite Qred_correct, Hz. unfold Qdiv. ring.
+  Qed.
+
+  (** C10.2b  a positive weight stays positive; weights stay non-negative *)
+  Theorem positive_stays_positive : forall m b b' var mu i,
+    MargOf m b -> NonNeg b -> length b = n ->
+    ic_update m b = Some (b', var, mu) -> InR i ->
+    0 < qnth b i -> 0 < qnth b' i.
+  Proof.
+    intros m b b' var mu i HM Hb Hlb H Hi Hp. apply ic_update_some in H. destruct H as [Hne [-> [_ ->]]].
+    pose proof (mean_nz_pos m b HM Hb Hne) as Hmu.
+    rewrite qnth_upd by (destruct HM; congruence).
+    rewrite upd_eq by lra. destruct (qz (qnth m i)) eqn:E; [assumption|].
+    apply qz_false in E.
+    assert (0 < qnth m i).
+    { pose proof (marg_nonneg m b i HM Hb Hi). destruct (Qlt_le_dec 0 (qnth m i)); [assumption|]. exfalso; apply E; lra. }
+    assert (0 < mean (nzs m) / qnth m i) by (now apply Qdiv_pos). nra.
+  Qed.
+
+  Lemma marg_nonneg_all : forall m b i, MargOf m b -> NonNeg b -> 0 <= qnth m i.
+  Proof.
+    intros m b i HM Hb. destruct (Nat.lt_ge_cases (Z.to_nat i) n) as [Hlt|Hge].
+    - assert (E : qnth m i = qnth m (Z.of_nat (Z.to_nat i))) by (unfold qnth; now rewrite Nat2Z.id).
+      rewrite E. apply (marg_nonneg m b); auto. unfold InR. lia.
+    - unfold qnth. rewrite nth_overflow; [apply Qle_refl | destruct HM; lia].
+  Qed.
+
+  Theorem sweep_nonneg : forall m b b' var mu,
+    MargOf m b -> NonNeg b -> length b = n ->
+    ic_update m b = Some (b', var, mu) -> NonNeg b'.
+  Proof.
+    intros m b b' var mu HM Hb Hlb H i. apply ic_update_some in H. destruct H as [Hne [-> [_ ->]]].
+    pose proof (mean_nz_pos m b HM Hb Hne) as Hmu.
+    rewrite qnth_upd by (destruct HM; congruence).
+    rewrite upd_eq by lra. destruct (qz (qnth m i)) eqn:E; [apply Hb|].
+    apply qz_false in E.
+    assert (0 < qnth m i).
+    { pose proof (marg_nonneg_all m b i HM Hb). destruct (Qlt_le_dec 0 (qnth m i)); [assumption|]. exfalso; apply E; lra. }
+    assert (0 < mean (nzs m) / qnth m i) by (now apply Qdiv_pos).
+    specialize (Hb i). nra.
+  Qed.
+End Sweep.
